@@ -40,9 +40,10 @@ the observation point is the provenance table of the returned tree sequence):
                                      min_branch_length, constr_iterations, allow_unary, set_metadata, a
                                      user-supplied priors grid (no trace at all, population_size is recorded as
                                      null) and extra simplify keywords of preprocess_ts (e.g. keep_unary).  The
-                                     clause holds iff each such option given to the call is present in
-                                     parameters with its value; it is kept apart so that record-has-parameters-used
-                                     stays strict for everything the record format carries.
+                                     clause (one case per option name, aggregated over all calls) holds iff the
+                                     option is present in parameters with its value in every call that was given
+                                     it; it is kept apart so that record-has-parameters-used stays strict for
+                                     everything the record format carries.
 
 Input space (own generator on top of rt.inputs.sim / tree_to_ts; deterministic in the seed)
   quick   : 4 inputs (3 msprime simulations with 3..5 samples, 1..~15 trees, <= ~25 nodes; one hand-built
@@ -304,16 +305,23 @@ def check_call(rep, prefix, key, desc, fname, kw, rp, ts_in, ts_out):
                type(params[k]) is bool and type(v) is not bool or type(v) is bool and type(params[k]) is not bool}
     rep.case(prefix + "record-has-parameters-used", not missing, key=key, input=inp,
              observed={k: params.get(k, "<absent>") for k in missing}, expected=missing)
-    if known:
-        bad = {k: v for k, v in known.items() if k not in params or (k != "priors" and params[k] != v)}
-        rep.case("known-record-omits-output-affecting-options", not bad, key=key, input=inp,
-                 observed={k: params.get(k, "<absent>") for k in bad}, expected=bad)
+    for k, v in known.items():
+        t = known_tally.setdefault(k, {"given": 0, "recorded": 0, "example": None})
+        t["given"] += 1
+        if k in params and (k == "priors" or params[k] == v):
+            t["recorded"] += 1
+        elif t["example"] is None:
+            t["example"] = {"call": inp, "value_given": v, "in_record": params.get(k, "<absent>")}
+
+
+known_tally = {}
 
 
 def run(req, rep):
     tier, seed = req["tier"], req["seed"]
     import tsdate
 
+    known_tally.clear()
     rng = np.random.default_rng(seed)
     ins = make_inputs(seed, tier)
     rep.space = ("small msprime simulations + one hand-built tree, each with a provenance-history variant (2 / 0 / 3 "
@@ -373,6 +381,11 @@ def run(req, rep):
     rep.bound = (f"{len(ins)} inputs (<= {max(t.num_nodes for _, t in ins)} nodes, <= "
                  f"{max(t.num_samples for _, t in ins)} samples), {len(call_specs(ins[0][1], tsdate))} call "
                  f"specifications, {n_chain} chains, {n_calls} calls of the real entry points")
+    # one case per known-unrecorded option (aggregated so that these known failures cannot crowd out the report)
+    for k, t in sorted(known_tally.items()):
+        rep.case("known-record-omits-output-affecting-options", t["recorded"] == t["given"], key=f"option:{k}",
+                 input=t["example"], observed=f"recorded in {t['recorded']} of {t['given']} calls that were given {k}",
+                 expected="recorded in every call that was given it")
     rep.notes.append(f"{len(skipped)} of {n_calls} calls raised before returning (no output to observe; C35 "
                      f"territory) and were skipped: {skipped[:4]}")
     rep.notes.append("known-record-omits-output-affecting-options fails on the unchanged code by design of the "
